@@ -11,6 +11,8 @@ open NeoFS NeoFS.Balance
 
 /-- HALTed `lock(d, f, t, amt, till)` inside the quantifier with `f ≠ t`: the lock record is exactly
 `⟨amt, till, f⟩`, `f` pays exactly `amt` (and holds at least that much), nobody else is touched.
+The quantifier lets `t` already hold a record with balance 0 (e.g. `⟨0,0,[]⟩` left by a
+zero-amount transfer): its `till`/`parent` are replaced, as in the code.
 (The invariant `SInv` is not needed.) -/
 theorem lock_creates (s s' : State) (env : Env) (d : List Nat) (f t : Hash) (amt till : Int)
     (r : Option Bool) (ev : List Event) (hw : WFOp s (.lock d f t amt till)) (hft : f ≠ t)
@@ -149,6 +151,13 @@ example : getAcc (run init h3).accts L = ⟨100, 2, A⟩ ∧ getAcc (run init h3
   decide
 example : WFOp (run init (demo.take 2)) (.lock [] A L 100 2) := by
   simp only [WFOp]; decide
+-- a lock target that is not fresh: an empty record left by a zero-amount transfer is overwritten
+def hz : List (Env × Op) := [(alpha, .mint A 1000 []), (asA, .transfer A L 0)]
+example : L ∈ (run init hz).accts.map (·.1) ∧ getAcc (run init hz).accts L = ⟨0, 0, []⟩ := by decide
+example : WFOp (run init hz) (.lock [] A L 100 2) := by
+  simp only [WFOp]; decide
+example : getAcc (invoke (run init hz) alpha (.lock [] A L 100 2)).1.accts L = ⟨100, 2, A⟩ ∧
+    getAcc (invoke (run init hz) alpha (.lock [] A L 100 2)).1.accts A = ⟨900, 0, []⟩ := by decide
 example : getAcc (run init h4).accts L = ⟨60, 2, A⟩ ∧ (run init h4).supply = 960 := by decide
 example : getAcc (run init h5).accts L = ⟨60, 2, A⟩ := by decide
 example : getAcc (run init h6).accts L = Account.empty ∧ getAcc (run init h6).accts A = ⟨660, 0, []⟩ := by
